@@ -12,12 +12,17 @@ func init() {
 	addRun("C05", "GetFilters on /Filter arrays of 1..40 names: more than maxFilterChainLength (8, documented cap) must be refused", robFilterChainRun)
 	addRun("C05", "EXHAUSTIVE token sequences up to length 8 (array body) / 6 (dictionary value) over {integer, R, name} read by ReadObject (lines 'ROB scan … o'), compared with Model/Scan; a panic is a violation", robTokenSeqRun)
 	addRun("C05", "linked structures x graph shapes x walkers: page tree, name tree, number tree and outline rendered from 12 graph families (chain, child listed twice/thrice, child+grandchild, lattice, self loop, 2-cycle, back edge, fan, random DAG, random graph) of depth 1..40 (thorough ..300); pagetree.Iterator/FindPages, nametree and numtree FromFile.All/Lookup/ExtractInMemory/Size, outline.Decode run over a metering Getter; more than 64*objects+256 object fetches, a panic or a hang is a violation", robC05wRun)
+	addRun("C05", "goroutine lifetime on SUCCESS paths of the two pipe producers of the library (type1glyphs.FromStream, DCTDecode): the repository's Type 1 test font in PDF, PFA, PFB, binary and no-eexec form followed by 0..64 KiB of trailing zeros, noise or text, written into the stream in one piece, in two pieces or in 1 KiB chunks; valid JPEGs (grey 32x32, RGB 64x64, RGB 400x400) followed by 0..64 KiB of trailing zeros, noise or a second JPEG, read completely, in part, one byte or not at all and then closed; goroutines are counted before the call and after it (settle loop of one second, library frames confirmed on the stacks); a goroutine left behind, a panic, (nil, nil) or a hang is a violation, the case descriptor is the replay", robC05gRun)
+	addRun("C05", "allocation budget of cross-reference streams with arithmetically hostile /Index arrays: subsection sizes that sum to a multiple of 2^32 or 2^31 or just above ([0 16777216] x 256, x 512, x 128, [0 1048576] x 4096, plus 5 / 8192 / 8193), hundreds of repeated and overlapping subsections, single values at the uint32 and int64 boundaries, over a body of 2 (thorough 6) million all-zero entries in a few kilobytes on disk, and control files within the budget that must open; NewReader in each ErrorHandling mode, growth of runtime.MemStats.TotalAlloc against 32 MiB + 128 bytes x limits.MaxXRefEntries(rawLen) + 1024 x rawLen; allocation beyond that, a panic, a hang or a refused control is a violation, the descriptor (index spec, body entries, /Size, mode) is the replay", robC05iRun)
+	addReplay("C05", "c05g", replayC05g)
+	addReplay("C05", "c05i", replayC05i)
 	addReplay("C05", "c05w", replayC05w)
 	addReplay("C05", "c05", replayC05)
 	addReplay("C05", "filterchain", replayFilterChain)
 	addReplay("C05", "scan", replayScan)
 	addReplay("C05", "resolve", replayResolve)
 
+	addRun("C19", "ReadObject under ALL-k faults: every text of a corpus of objects (all token kinds, escapes, '#' names, nesting, references, stream dictionaries) through readers serving 1 or 3 bytes per call and failing from/at call k for every k (lines 'ROB scan … o', modes f/o), compared with the buffer-level parser model Model/ROBScanObj.lean; oracle (theorem readObject_fault): the fault-free result or the injected error", robObjFaultRun)
 	addRun("C19", "scanner buffer under readers that fail from call k on / only at call k, with 0..n bytes delivered together with the error (lines 'ROB scan', modes f/o), compared with Model/ROBScanBuf; oracle: every call returns the fault-free result or the injected error", func(c *Ctx) { robScanRun(c, true) })
 	addRun("C19", "error trees (sentinels, *MalformedFileError, %w wrappers, opaque errors) through Wrap^n, IsMalformed, errors.Is, Optional, IsReadError (lines 'ROB err'); scripted raw readers and scripted filter layers above the real sourceErrChecker/sourceAwareReader (lines 'ROB chain'); oracles: Wrap preserves class, Optional hides only malformed errors, the source's first error wins", robErrRun)
 	addRun("C19", "documents from the real Writer (xref tables / xref streams + object streams, six filter chains, RC4/AES encryption with empty and non-empty user password, page tree) opened by NewReader or SequentialScan+MakeReader in a random ErrorHandling mode, then Get of every object, DecodeStream+ReadAll of every stream, page tree walk: EVERY ReadAt index k of the fault-free session x {fail from k on, fail only k, short read with error only at k, from k on}; a case is non-trivial when the fault was reached; oracle: every step equals the fault-free step or returns an error that errors.Is the injected error and is not IsMalformed", robC19ReadRun)
